@@ -774,7 +774,7 @@ class Explorer:
                     try:
                         m = self.s.model() if self.s.check() == z3.sat else None
                         if m is not None:
-                            self.samples.append({str(d): str(m[d]) for d in m.decls()})
+                            self.samples.append({str(d): str(m[d])[:120] for d in m.decls() if d.arity() == 0})      # constants only (not the interpretations of uninterpreted functions)
                     except z3.Z3Exception:
                         pass
                 if self.path_hook is not None:
